@@ -9,7 +9,8 @@ Import-free, executable.  Memory is a list of bytes starting at `msg_control`; i
 (unmapped page).  x86_64/aarch64 layout: `size_of::<CmsgHdr>() = 16`, `size_of::<usize>() = 8`, `size_of::<Fd>() = 4`,
 little endian.
 
-The iterator is modelled for EVERY content of the memory (the header fields are whatever the bytes say): all `usize`
+The iterator is modelled — as repaired in commit 8263fff (`fixed = true`) and as it was before (`fixed = false`) —
+for EVERY content of the memory (the header fields are whatever the bytes say): all `usize`
 arithmetic of the macros and of `next` is checked as in the debug build the harness uses (`.panic`), as is the
 `slice::from_raw_parts` precondition (`.abort`); `base` is the numeric address of `msg_control` (only `cmsg as usize +
 cmsg_len` depends on it).  The consumer reads every slice it is handed (logged; `.fault` if unmapped).  Assumed, not
@@ -105,12 +106,13 @@ def nxthdr (base ctl off : Nat) (h : Hdr) : Except Bad (Option Nat) :=
   else if cmsgAlign h.len + HDR ≥ ctl - off then .ok none
   else .ok (some (cmsgAlign h.len))
 
-/-- one call of `ControlMessageIterator::next` on the header `h` read at offset `off` (`m` = memory from `off` on),
-followed by the consumer reading the slice it was given.  `.error o`: the run ends here with `o` (crash);
-`.ok (item, reads, next)`: the item yielded (if the header is tagged SOL_SOCKET/SCM_RIGHTS), the reads made, and the
-distance to the next header (`none`: `cmsg_nxthdr!` returned null).  Order of the checks = order of evaluation in
-the source: `cmsg as usize + r.cmsg_len`, `- data as usize`, `cmsg_nxthdr!`, `from_raw_parts`. -/
-def hdrStep (base ctl off : Nat) (m : List Nat) (h : Hdr) :
+/-- one call of `ControlMessageIterator::next` AS IT WAS BEFORE commit 8263fff on the header `h` read at offset `off`
+(`m` = memory from `off` on), followed by the consumer reading the slice it was given.  `.error o`: the run ends here
+with `o` (crash); `.ok (item, reads, next)`: the item yielded (if the header is tagged SOL_SOCKET/SCM_RIGHTS), the reads
+made, and the distance to the next header (`none`: `cmsg_nxthdr!` returned null).  Order of the checks = order of
+evaluation in the source: `cmsg as usize + r.cmsg_len`, `- data as usize`, `cmsg_nxthdr!`, `from_raw_parts`.
+No CMSG_OK test: `cmsg_len` is used as found. -/
+def hdrStepOrig (base ctl off : Nat) (m : List Nat) (h : Hdr) :
     Except IterOut (Option (List Nat) × List (Nat × Nat) × Option Nat) :=
   if h.typ = SCM_RIGHTS ∧ h.level = SOL_SOCKET then
     if U64 ≤ base + off + h.len then .error ⟨[], [(off, HDR)], some .panic⟩
@@ -129,28 +131,42 @@ def hdrStep (base ctl off : Nat) (m : List Nat) (h : Hdr) :
     | .error b => .error ⟨[], [(off, HDR)], some b⟩
     | .ok nx => .ok (none, [(off, HDR)], nx)
 
+/-- `ControlMessageIterator::next` on one header.  `fixed = true`: the code as it is since commit 8263fff — directly after
+the header is read, for EVERY header:
+  `let remaining = __mhdr_end!(self.msghdr).saturating_sub(cmsg as usize);`   (`msg_control + msg_controllen` is checked
+                                                                               arithmetic: `.panic` if it wraps)
+  `if r.cmsg_len < size_of::<CmsgHdr>() || r.cmsg_len > remaining { self.cmsg_prev = None; return None; }`
+and only then the old body.  `fixed = false`: the code before the repair. -/
+def hdrStep (fixed : Bool) (base ctl off : Nat) (m : List Nat) (h : Hdr) :
+    Except IterOut (Option (List Nat) × List (Nat × Nat) × Option Nat) :=
+  if fixed = true then
+    if U64 ≤ base + ctl then .error ⟨[], [(off, HDR)], some .panic⟩
+    else if h.len < HDR ∨ ctl - off < h.len then .ok (none, [(off, HDR)], none)
+    else hdrStepOrig base ctl off m h
+  else hdrStepOrig base ctl off m h
+
 /-- `ControlMessageIterator::next` iterated to exhaustion; `m` is the memory from offset `off` on -/
-def iterFrom : Nat → Nat → Nat → Nat → List Nat → IterOut
+def iterFrom (fixed : Bool) : Nat → Nat → Nat → Nat → List Nat → IterOut
   | 0, _, _, _, _ => ⟨[], [], some .fuel⟩
   | fuel + 1, base, ctl, off, m =>
     match decHdr m with
     | none => ⟨[], [(off, HDR)], some .fault⟩
     | some h =>
-      match hdrStep base ctl off m h with
+      match hdrStep fixed base ctl off m h with
       | .error o => o
       | .ok (item, rd, nx) =>
         let rest : IterOut :=
           match nx with
           | none => ⟨[], [], none⟩
-          | some d => iterFrom fuel base ctl (off + d) (m.drop d)
+          | some d => iterFrom fixed fuel base ctl (off + d) (m.drop d)
         ⟨item.toList ++ rest.msgs, rd ++ rest.reads, rest.bad⟩
 
 /-- `control_messages()` + the iterator: `cmsg_firsthdr!` = `msg_controllen >= 16 ? msg_control : null` -/
-def iterate (base : Nat) (mem : List Nat) (ctl : Nat) : IterOut :=
-  if ctl < HDR then ⟨[], [], none⟩ else iterFrom (ctl + 1) base ctl 0 mem
+def iterate (fixed : Bool) (base : Nat) (mem : List Nat) (ctl : Nat) : IterOut :=
+  if ctl < HDR then ⟨[], [], none⟩ else iterFrom fixed (ctl + 1) base ctl 0 mem
 
-/-- the address the driver assumes for `msg_control` (any user-space address gives the same answers on the inputs the
-check generates: header lengths are either < 2^64 - 2^48 or ≥ 2^64 - 2^16) -/
+/-- the address the driver assumes for `msg_control` (the repaired code's answers do not depend on it as long as the
+buffer does not wrap the address space; the code before the repair depended on it through `cmsg + cmsg_len`) -/
 abbrev NOMINAL_BASE : Nat := 70368744177664     -- 2^46
 
 /-! ## specification side: the kernel's view of a control buffer
